@@ -15,6 +15,7 @@ import (
 	"encoding/hex"
 	"encoding/json"
 	"fmt"
+	"io"
 	"math/big"
 	"strings"
 
@@ -211,6 +212,7 @@ type Env struct {
 	Res    *core.Result
 	Prop   string
 	Strict bool
+	chunkCtr int
 }
 
 type canonEntry struct {
@@ -809,7 +811,7 @@ func (e *Env) codecScalar(dst, src kyber.Scalar) error {
 			return fmt.Errorf("MarshalTo wrote %x (n=%d, err=%v), MarshalBinary gave %x", buf.Bytes(), n, err, ref)
 		}
 		buf.Write([]byte{0xAA, 0xBB}) // trailing bytes must stay unread
-		n, err = dst.UnmarshalFrom(&buf)
+		n, err = dst.UnmarshalFrom(&chunkReader{&buf, e.chunk()}) // an io.Reader may deliver short reads
 		if err != nil || n != len(ref) || buf.Len() != 2 {
 			return fmt.Errorf("UnmarshalFrom consumed n=%d (left %d) err=%v, want %d", n, buf.Len(), err, len(ref))
 		}
@@ -860,7 +862,7 @@ func (e *Env) codecPoint(dst, src kyber.Point) error {
 			return fmt.Errorf("MarshalTo wrote %x (n=%d, err=%v), MarshalBinary gave %x", buf.Bytes(), n, err, ref)
 		}
 		buf.Write([]byte{0xAA, 0xBB})
-		n, err = dst.UnmarshalFrom(&buf)
+		n, err = dst.UnmarshalFrom(&chunkReader{&buf, e.chunk()})
 		if err != nil || n != len(ref) || buf.Len() != 2 {
 			return fmt.Errorf("UnmarshalFrom consumed n=%d (left %d) err=%v, want %d", n, buf.Len(), err, len(ref))
 		}
@@ -887,4 +889,24 @@ func (e *Env) codecPoint(dst, src kyber.Point) error {
 		dst.Set(p3)
 	}
 	return nil
+}
+
+// chunkReader delivers at most n bytes per Read (n <= 0: no limit), as a
+// network connection or pipe may.
+type chunkReader struct {
+	r io.Reader
+	n int
+}
+
+func (c *chunkReader) Read(p []byte) (int, error) {
+	if c.n > 0 && len(p) > c.n {
+		p = p[:c.n]
+	}
+	return c.r.Read(p)
+}
+
+// chunk cycles the read granularity over calls: 1 byte, 7 bytes, unlimited.
+func (e *Env) chunk() int {
+	e.chunkCtr++
+	return []int{1, 7, 0}[e.chunkCtr%3]
 }
